@@ -265,7 +265,19 @@ def lift_api(beh, idx):
         elif o == "observe":
             ops.append({"op": "observe", "seg": h["seg"], "level": "light"})
         elif o == "stored":
-            ops += [{"op": "stored", "seg": h["seg"], "n": 0}, {"op": "stored", "seg": h["seg"], "n": 1}]
+            ops.append({"op": "stored", "seg": h["seg"], "n": h["n"], "stop": h["stop"]})
+        elif o == "it_close":
+            ops.append({"op": "it_close", "it": 200 + h["it"]})
+        elif o == "dict_close":
+            ops.append({"op": "dict_close", "seg": h["seg"], "field": h["field"], "reuse_dict": (idx + k) % 2 == 0})
+        elif o == "stats_get":
+            ops.append({"op": "stats_get", "seg": h["seg"], "field": h["field"], "r": h["r"]})
+        elif o == "stats_add":
+            ops.append({"op": "stats_add", "r": h["r"], "r2": h["r2"]})
+            # every other statistics object must still read what it read before
+            ops += [{"op": "stats_read", "r": x} for x in range(1, 4)]
+        elif o == "stats_read":
+            ops.append({"op": "stats_read", "r": h["r"]})
         elif o == "match":
             ops.append({"op": "match", "seg": h["seg"], "pairs": [{"field": "a", "term": [120]}, {"field": "_id", "term": [48]}]})
         ops.append({"op": "digest"})
@@ -274,6 +286,8 @@ def lift_api(beh, idx):
         tags.append("api_merge_with_bitmap")
     if any(h["op"] in ("pl_open", "it_open") and h.get("prealloc") for h in beh["hist"]):
         tags.append("api_prealloc")
+    if any(h["op"] == "stats_add" for h in beh["hist"]):
+        tags.append("api_stats_add")
     return {"name": "E2-api-%d" % idx, "norm": "code", "universe": ["_id", "a", "b", "c", "zz"],
             "batches": batches, "ops": ops, "tags": tags}
 
